@@ -579,6 +579,14 @@ impl Checker
             self.viol("C05", format!("payload {p} was not released by the end of its reaction tree"));
             if let Some(pm) = self.payloads.get_mut(&p) { pm.dropped = true; }
         }
+        // C09: a polled despawn reaction runs at a system-command boundary of the same tree: whatever a poll of this
+        // tree took out of the table has been applied by the end of the tree
+        if !self.queued_despawn.is_empty()
+        {
+            let stuck: Vec<(SysUid, u8)> = self.queued_despawn.iter().map(|q| (q.0, q.1)).collect();
+            self.viol("C09", format!("despawn reactions (system, entity) {:?} were due at a poll of this tree but did not run at any boundary of the tree", stuck));
+            self.viol("C08", format!("despawn reactions (system, entity) {:?} were due at a poll of this tree but did not run by its end", stuck));
+        }
         if self.tree_had_incident { self.rep.classes.hit("C11:tree_with_incident"); }
         if self.prev_tree_incident { self.rep.classes.hit("C11:tree_after_incident_tree"); }
         self.in_tree = false;
